@@ -14,7 +14,7 @@ From CV Require Import Base.Num C15.GridModel.
 Import ListNotations.
 Local Open Scope Z_scope.
 
-Inductive vkind := KScalar | KVec3 | KUnit3 | KQuat.
+Inductive vkind := KScalar | KVec3 | KUnit3 | KQuat | KVecN (n : nat).   (* KVecN n: colvarvalue::type_vector with n entries *)
 
 Section Meta.
   Context {T : Type} (O : NumOps T).
@@ -103,9 +103,16 @@ Section Meta.
   Definition tiny14 : T := ndiv O (n1 O) (nofZ O 100000000000000).
   Definition tiny28 : T := ndiv O (n1 O) (nmul O (nofZ O 100000000000000) (nofZ O 100000000000000)).
 
+  (* vector1d: (x - c).norm2(), accumulated from 0 in the order of the entries; 2.0 * (x - c) *)
+  Definition sqsumN (n : nat) (x c : value) : T :=
+    fold_left (fun acc k => nadd O acc (nmul O (nsub O (comp x k) (comp c k)) (nsub O (comp x k) (comp c k)))) (seq 0 n) (n0 O).
+  Definition lgradN (n : nat) (x c : value) : value :=
+    map (fun k => nmul O (nofZ O 2) (nsub O (comp x k) (comp c k))) (seq 0 n).
+
   (* dist2(x, center) *)
   Definition vdist2 (v : var_cfg) (x c : value) : T :=
     match v_kind v with
+    | KVecN n => sqsumN n x c
     | KScalar => nsq O (vdiff v (sc x) (sc c))
     | KVec3 => let d := sub3 c x in dot3 d d                      (* distance_vec::dist2: |x2 - x1|^2 *)
     | KUnit3 => let th := nacos O (clamp1 (dot3 x c)) in nmul O th th   (* colvarvalue::dist2, unit3vector *)
@@ -118,6 +125,7 @@ Section Meta.
   (* dist2_lgrad(x, center): derivative with respect to x, one entry per component *)
   Definition vlgrad (v : var_cfg) (x c : value) : value :=
     match v_kind v with
+    | KVecN n => lgradN n x c
     | KScalar => [nmul O (nofZ O 2) (vdiff v (sc x) (sc c))]
     | KVec3 => scale3 (nofZ O 2) (sub3 x c)                        (* 2 * position_distance(x2, x1) *)
     | KUnit3 =>
@@ -185,7 +193,8 @@ Section Meta.
 
   (* colvar_forces[i].reset(): zero, with the number of components of the variable *)
   Definition vzero (v : var_cfg) : value :=
-    match v_kind v with KScalar => [n0 O] | KQuat => [n0 O; n0 O; n0 O; n0 O] | _ => [n0 O; n0 O; n0 O] end.
+    match v_kind v with KScalar => [n0 O] | KQuat => [n0 O; n0 O; n0 O; n0 O] | KVecN n => repeat (n0 O) n
+                   | _ => [n0 O; n0 O; n0 O] end.
   Definition fzero (vs : list var_cfg) (i : nat) : value :=
     match nth_error vs i with Some v => vzero v | None => [] end.
 
